@@ -55,7 +55,7 @@ def build(root, repo, work, seed=0, tier="quick"):
         elif g["check"] == "recfallible":
             call = 'check_recfallible(rep, "%s", seq, &|log, st| %s::%s::new().parse(log, st))' % (v["name"], v["name"], g["parser"])
         else:
-            call = 'check_recovery(rep, "%s", seq, &|st| %s::%s::new().parse(st))' % (v["name"], v["name"], g["parser"])
+            call = 'check_recovery(rep, "%s", &%s, seq, &|st| %s::%s::new().parse(st))' % (v["name"], g.get("oracle") or "g_stmts", v["name"], g["parser"])
         disp_all.append('    { let lens = LENS_%s; for_all(%s, if n == 0 { lens.0 } else { lens.1 }, &mut |seq: &[Tok]| { %s; }); }' % (v["grammar"].upper(), alpha, call))
         disp_one.append('        "%s" => { %s; }' % (v["name"], call))
     lex_all, lex_one = [], []
